@@ -202,6 +202,14 @@ def strata(tier):
                    "path": PC.mkpath([{"p": "mol"}]), "arg_kind": "pathlike-literal"}
         yield {"term": PC.L("value", "in_", [lit, 7]), "cont": [lit, 7, 3], "doc": {"x": lit}, "path": PC.mkpath([{"p": "mol"}]),
                "arg_kind": "pathlike-literal"}
+    # a keyword that is itself named like a path key, with every kind of value
+    Px = {"$path": PC.mkpath([{"p": "prim", "v": "x"}])}
+    for kwname in ("path", "Path", "path.length"):
+        for val in (Px, 5, {"path": [0]}, [1, {"a": 2}], {"k": "v"}):
+            for extra in ({}, {"b": 1}):
+                tm = {"c": "leaf", "kind": "value", "pre": None, "fn": "items_contain", "args": [], "kwargs": dict({kwname: val}, **extra)}
+                yield {"term": tm, "cont": [{"path": 3, "b": 1}, {"path": {"path": [0]}}, {"Path": 5}, 3], "doc": {"x": 3, "y": {"path": 3, "b": 1}},
+                       "path": PC.mkpath([{"p": "mol"}]), "arg_kind": "keyword-named-path"}
     # long chains: the serialised form nests one level per operand and must be rebuilt whatever its depth
     for n in (34, 35, 70, 130):
         for op in ("and", "or", "xor"):
@@ -295,6 +303,9 @@ def run(case, ctx):
     t, cont, doc, pterm = case["term"], case["cont"], case["doc"], case["path"]
     ak = case.get("arg_kind", "?")
     key_tail = f"{cname(t)}/{ak}"
+    if any(_sole_pathlike_keyword_with_datapath(l) for l in M.leaves(t)):
+        # (one mechanism, one key: the JSON form has no spelling that tells this from the literal mapping)
+        key_tail = "keyword-named-path-with-datapath-value"
     ok, c = call(build.cond_obj, t)
     if not ok:
         ctx.violate(f"C11/dsl-construct:{c.type}/{key_tail}", f"{c!r}; {t}")
@@ -372,6 +383,14 @@ def run(case, ctx):
     if ak not in ("scalar", "none", "as-is", "leaf") or t["c"] != "leaf":
         ctx.mark_nontrivial(repr(t))
         ctx.sample({"term": t, "json": j}, cap=5)
+
+
+def _sole_pathlike_keyword_with_datapath(leaf):
+    kw = leaf.get("kwargs") or {}
+    if len(kw) != 1 or leaf.get("args"):
+        return False
+    (k, v), = kw.items()
+    return type(k) is str and k.lower().split(".")[0] == "path" and M.is_pathref(v)
 
 
 def _leaf_objs(c):
